@@ -425,6 +425,60 @@ def rule_b(F):
     return res
 
 
+def rule_u(F):
+    """C02.U: every collection ends with the unmark phase. The mark phase only descends into White children, so an object
+    left Gray by one collection is taken for 'already visited' by the next one and whatever was stored into it in between
+    is never marked. Decided on the MIR of gc(): every path from a store of Gray into a marker to the return passes through
+    the loop that stores White (its header, so that an empty object list still counts)."""
+    res = []
+    gc = F.fn("vm::runtime::RuntimeData::gc")
+    cfg = gc.cfg
+    du = DefUse(gc)
+
+    def stored_variant(st):
+        rv = st["rv"]
+        if rv["k"] == "agg":
+            return rv["agg"].get("variant")
+        if rv["k"] == "use":
+            v = mu.operand_variant(gc, du, rv["op"])
+            return v.rsplit("::", 1)[-1] if isinstance(v, str) else None
+        return None
+    gray, white = [], []
+    for bi, b in enumerate(gc.blocks):
+        if bi not in cfg.reach:
+            continue
+        for st in b["stmts"]:
+            if st["k"] == "assign" and mu.field_path(st["place"])[-1:] == ["marker"]:
+                v = stored_variant(st)
+                if v == "Gray":
+                    gray.append(bi)
+                elif v == "White":
+                    white.append(bi)
+    if not gray or not white:
+        raise AnchorMissing("Gray / White marker stores in gc (found %d / %d)" % (len(gray), len(white)))
+    back = cfg.back_edges()
+    headers = set()
+    for w in white:
+        hs = [h for s_, h in back if cfg.dominates(h, w) and w in cfg.can_reach([s_], avoid=[])]
+        if hs:
+            headers.add(max(hs, key=lambda h: len(cfg.dom[h])))    # innermost
+    key = "C02/U/gc/every-exit-passes-the-unmark-phase"
+    if not headers:
+        return [bad("C02.U", key, gc.loc(), "gc() stores White outside any loop: the survivors are not all unmarked")]
+    rets = cfg.return_blocks()
+    leak = [g for g in gray if not cfg.every_path_passes(g, rets, headers)]
+    if leak:
+        ln = None
+        for st in gc.blocks[leak[0]]["stmts"]:
+            ln = st.get("ln") or ln
+        res.append(bad("C02.U", key, gc.loc(ln), "gc() can return after marking objects Gray without running the unmark loop (an early exit, e.g. "
+                       "'nothing to collect'): the survivors stay Gray, the next collection takes them for already visited and does not look "
+                       "at what was stored into them since - objects reachable only through such a container are freed while in use"))
+    else:
+        res.append(ok("C02.U", key, gc.loc(), "%d Gray stores, all of whose paths to the return pass the unmark loop" % len(gray)))
+    return res
+
+
 def rule_p(F):
     res = []
     gc = F.fn("vm::runtime::RuntimeData::gc")
@@ -801,6 +855,7 @@ def _arity(path):
 RULES = [
     Rule("C02.V", rule_v, 1, "the mark phase enumerates children through complete views"),
     Rule("C02.B", rule_b, 1, "no scan of gc() stops early except a nested search for one root"),
+    Rule("C02.U", rule_u, 1, "every exit of gc() after marking passes the unmark phase"),
     Rule("C02.K", rule_k, 9, "the collector never overwrites the Protected marker"),
     Rule("C02.Roots", rule_roots, 7, "gc's root set covers every reference-bearing field of RuntimeData/CallFrame"),
     Rule("C02.M", rule_m, 6, "the mark loop follows every reference-bearing field of every object kind"),
